@@ -19,7 +19,7 @@ EXTENDS VFOpen, TLC, Json, IOUtils
 Tr == ndJsonDeserialize(IOEnv.TRACE)
 VARIABLES l, scn, pages, ncmp
 vars == <<l, scn, pages, ncmp>>
-K == [chunk |-> 65536, near |-> 44100, read |-> 2048, backup |-> "begin", handover |-> "refetch"]
+K == [chunk |-> 65536, near |-> 44100, read |-> 2048, backup |-> "begin", handover |-> "refetch", clamp |-> TRUE]
 Note(rules, e) == IF rules = {} THEN TRUE ELSE PrintT("DRIFT " \o ToJson([line |-> l, scn |-> Tr[scn].scn, ev |-> e.e, rules |-> rules]))
 NoPages == [pg |-> <<>>, lk |-> <<>>, f |-> -1]
 IsPrefix(a, b) == Len(a) <= Len(b) /\ \A i \in 1..Len(a) : a[i] = b[i]
